@@ -11,24 +11,49 @@
 
   WHAT IS PROVED
   * C08_marshal_parses_partial      on `policyOKGo`: the rendering parses, and to the IDENTICAL policy;
-    hence C08_marshal_meaning_partial (same effect, annotations, scope, same evaluation on every environment)
-    and C08_marshal_idempotent_partial (re-rendering gives the same bytes)
-  * C08_list_roundtrip_partial      a list of such policies parses back to the same sequence, in order
+    hence C08_marshal_idempotent_partial (re-rendering gives the same bytes)
+  * C08_marshal_value_parses_partial / C08_marshal_value_meaning_partial / C08_marshal_value_evaluates_partial
+                                    a `NodeValue` holding ANY value of `valOK` — booleans, longs, strings, entity uids,
+                                    duplicate-free sets, records, decimal / datetime / duration / ip values in the
+                                    range of the C12 round trips, arbitrarily nested — is written as text that parses
+                                    to the expression `valExpr v` (set literal / record literal / constructor call on
+                                    the text form), and that expression evaluates to `v` (a value `Equal` to `v`)
+                                    on every request and entity store; C08_marshal_value_order_irrelevant: whichever
+                                    order the members of a set are listed in (Go: hash-slot order), `valOK` holds alike
+                                    and the two listings are `Equal` values
+  * C08_marshal_parses_values_partial   on `policyOKGoV` (= `policyOKGo` + such `NodeValue`s anywhere in the conditions):
+                                    the rendering parses to `desugarPolicy p` (every `NodeValue` replaced by `valExpr`)
+  * C08_marshal_meaning_partial     on `policyOKGoV`: the reparsed policy has the same effect, annotations and scope and
+                                    evaluates identically (same value or same failure) on every environment
+  * C08_list_roundtrip_partial / C08_list_roundtrip_values_partial   lists of such policies parse back in order
+  * C08_marshal_idempotent_values_counterexample   with a set VALUE holding an extension value the second rendering
+                                    differs from the first (`[ip("…")]` → `[(ip("…"))]`: known finding
+                                    `extension-value-in-set-or-record-rerendered-with-parens`, harmless and stable from
+                                    then on) — why idempotence is stated on `policyOKGo` only
   * C08_negate_literal_same_meaning `-`(literal n) is written `-n` and read back as the literal −n: a different
                                     tree with the same value (why the full statement speaks of meaning, not trees)
   * regression examples for the two repaired defects: `Long(-5).Access("foo")` is written `(-5).foo`
     (`negative-literal-receiver`) and `Negate(Long(5).Access("foo"))` is written `-5.foo` and read back
     (`negated-int-receiver`); both trees are inside the fragment now
 
-  THE FRAGMENT `Text.policyOKGo` / `Text.inFragGo` (decidable; CedarGo/Model/Text/Fragment.lean): the C07 fragment
-  (bool/long/string/entity literals, variables, all unary and binary operators and methods, if-then-else, attribute
-  access, has, is, is-in, sets, records, extension calls; any annotations with distinct keys, every scope form, any
-  conditions) MINUS `-`(non-negative literal), which is written `-5` and read back as the literal −5.
-  NOT covered by theorems (covered by the direct oracle on the Go side only): `like`;
-  NodeValues holding sets, records or extension values (their printing order / key quoting is not modelled — and
-  has the known defects listed in known_findings.d/C08.json); PolicySet order (a property of the container: C20).
+  THE FRAGMENTS (decidable; CedarGo/Model/Text/Fragment.lean)
+  `Text.policyOKGo` / `Text.inFragGo`: the C07 fragment — EVERY node kind: bool/long/string/entity literals, variables,
+  all unary and binary operators and methods, if-then-else, attribute access, has, like (patterns in `NewPattern` normal
+  form, C07_pattern_roundtrip), is, is-in, sets, records, extension calls; any annotations with distinct keys, every
+  scope form, any conditions — MINUS `-`(non-negative literal), which is written `-5` and read back as the literal −5.
+  `Text.policyOKGoV` / `Text.inFragGoV`: the same, PLUS `NodeValue`s holding any value of `Text.valOK`.
+  WHAT THE HYPOTHESES STILL EXCLUDE (why the names keep `_partial`): `-`(non-negative literal) (same meaning, different
+  tree: C08_negate_literal_same_meaning); extension VALUES outside the range where their text form parses back
+  (datetime before the source's `minDatetime`, IPv4-mapped IPv6 addresses: the C12 counterexamples / known finding
+  `extension-value-without-text-form`); values that are no Go value (longs outside int64, a set listing two `Equal`
+  members, a record listing its keys out of order); and what C07 excludes because it is the tree of no Cedar text
+  (entity types that are not paths, repeated record / annotation keys, unknown or receiver-less calls, `principal in [..]`,
+  `action is ..`).  Not a theorem: the BYTES of a set with two or more members (Go writes hash-slot order; compared
+  Go-vs-model up to member order by op `marshal-value`); PolicySet order (a property of the container: C20).
 -/
 import CedarGoProofs.Lemmas.C08Marshal
+import CedarGoProofs.Lemmas.C08ValuesEval
+import CedarGoProofs.Lemmas.C08ValuesOrder
 namespace CedarGo
 open CedarGo.Text
 
@@ -36,15 +61,29 @@ open CedarGo.Text
 theorem C08_marshal_parses_partial (p : Policy) (h : policyOKGo p = true) :
     parsePolicy (pieceToks (marshalPolicy p)) = some (.ok p)         := parsePolicy_of_reads (policyReads_marshal h)
 
+/-- the text of `p` parses to `desugarPolicy p`: `p` with every `NodeValue` replaced by the expression it is written as
+    (`valExpr`: itself for booleans / longs / strings / entity uids) -/
+theorem C08_marshal_parses_values_partial (p : Policy) (h : policyOKGoV p = true) :
+    parsePolicy (pieceToks (marshalPolicy p)) = some (.ok (desugarPolicy p)) := parsePolicy_of_reads (policyReads_marshalV h)
+
+/-- the old fragment is the part of the new one where nothing is rewritten -/
+example (p : Policy) (h : policyOKGo p = true) : policyOKGoV p = true ∧ desugarPolicy p = p := policyOKGoV_of_policyOKGo h
+
 /-- the reparsed policy has the same effect, annotations and scope and evaluates identically (same value or
-    same failure) on every request and entity store -/
-theorem C08_marshal_meaning_partial (p q : Policy) (h : policyOKGo p = true)
+    same failure) on every request and entity store — also when its conditions contain `NodeValue`s holding sets,
+    records or extension values (`policyOKGoV`), which are read back as set / record literals and constructor calls -/
+theorem C08_marshal_meaning_partial (p q : Policy) (h : policyOKGoV p = true)
     (hq : parsePolicy (pieceToks (marshalPolicy p)) = some (.ok q)) :
     q.effect = p.effect ∧ q.annotations = p.annotations ∧ q.principal = p.principal ∧ q.action = p.action ∧
-    q.resource = p.resource ∧ ∀ env, evalBool (policyToExpr q) env = evalBool (policyToExpr p) env := by
-  rw [parsePolicy_of_reads (policyReads_marshal h)] at hq
+    q.resource = p.resource ∧ (∀ env, eval (policyToExpr q) env = eval (policyToExpr p) env) ∧
+    ∀ env, evalBool (policyToExpr q) env = evalBool (policyToExpr p) env := by
+  rw [C08_marshal_parses_values_partial p h] at hq
   cases hq
-  exact ⟨rfl, rfl, rfl, rfl, rfl, fun _ => rfl⟩
+  have hc : p.conditions.all (fun c => inFragGoV c.2) = true := by
+    simp only [policyOKGoV, Bool.and_eq_true] at h; exact h.2
+  refine ⟨rfl, rfl, rfl, rfl, rfl, fun env => eval_policyToExpr_desugar p hc env, fun env => ?_⟩
+  unfold evalBool
+  rw [eval_policyToExpr_desugar p hc env]
 
 /-- rendering the reparsed policy reproduces the same bytes -/
 theorem C08_marshal_idempotent_partial (p q : Policy) (h : policyOKGo p = true)
@@ -57,6 +96,62 @@ theorem C08_marshal_idempotent_partial (p q : Policy) (h : policyOKGo p = true)
 /-- rendering a list of policies parses back to the same policies in the same order -/
 theorem C08_list_roundtrip_partial (ps : List Policy) (h : ps.all policyOKGo = true) :
     parsePolicies (marshalListToks ps) = some (.ok ps) := parsePolicies_of_reads (polsReads_marshal ps h)
+
+/-- the same for policies with value-only `NodeValue`s: the sequence of the `desugarPolicy` images, in order -/
+theorem C08_list_roundtrip_values_partial (ps : List Policy) (h : ps.all policyOKGoV = true) :
+    parsePolicies (marshalListToks ps) = some (.ok (ps.map desugarPolicy)) := parsePolicies_of_reads (polsReads_marshalV ps h)
+
+/-! ## `NodeValue`s without literal syntax -/
+
+/-- **tree**: the text `types.Value.MarshalCedar` writes for `v` parses, as a complete expression, to `valExpr v` -/
+theorem C08_marshal_value_parses_partial (v : Value) (h : valOK v = true) :
+    parseExpr (pieceToks (marshalLit v)) = some (.ok (valExpr v, [])) :=
+  parseExpr_of_reads (rend_spec (rend_mono (val_rend v h) (Nat.zero_le _)) (Nat.zero_le _)).1
+
+/-- **meaning**: parsing the rendering of the literal `v` gives an expression that evaluates, on every request and
+    entity store, to a value `Equal` to `v` (`Value.beq`: sets compared as sets).
+    FULL statement: the same for every value.  Missing: extension values outside the range of the C12 round trips
+    (there the text form does not parse back: `C12_datetime_min_counterexample`, `C12_ip_4in6_counterexample`). -/
+theorem C08_marshal_value_meaning_partial (v : Value) (h : valOK v = true) :
+    ∃ e, parseExpr (pieceToks (marshalLit v)) = some (.ok (e, [])) ∧ ∀ env, ∃ v', eval e env = .ok v' ∧ v'.beq v = true :=
+  ⟨valExpr v, C08_marshal_value_parses_partial v h, fun env => ⟨v, eval_valExpr v h env, C11.beq_refl v⟩⟩
+
+/-- sharper: the value obtained is `v` itself, member for member (a duplicate-free member list is kept as it is by
+    `NewSet`, strictly ascending keys are the evaluation order of a record literal) -/
+theorem C08_marshal_value_evaluates_partial (v : Value) (h : valOK v = true) (env : Env) : eval (valExpr v) env = .ok v :=
+  eval_valExpr v h env
+
+/-- **member order**: Go writes the members of a set in hash-slot order.  Whatever listing `ys` of the members `xs` is
+    written, it satisfies the hypothesis of the theorems above iff `xs` does, and it is an `Equal` value -/
+theorem C08_marshal_value_order_irrelevant (xs ys : List Value) (hp : xs.Perm ys) (h : valOK (.set xs) = true) :
+    valOK (.set ys) = true ∧ Value.beq (.set ys) (.set xs) = true := valOK_set_perm hp h
+
+example : [Value.long 1, .str "a", .set []].Perm [.set [], .long 1, .str "a"] ∧ valOK (.set [.long 1, .str "a", .set []]) = true :=
+  ⟨(List.perm_append_comm (l₁ := [Value.long 1, .str "a"]) (l₂ := [.set []])), by decide +kernel⟩
+
+/-- a set of a record, a decimal, an IPv6 prefix and a negative long; a record with a key that needs escaping -/
+example : valOK (.set [.record [("a\"b", .decimal (-15000)), ("k", .set [])], .ip ⟨true, 1, 64⟩, .long (-5), .duration 90061001,
+      .datetime 0, .entity "NS::User" "x y"]) = true ∧
+    pieceText (marshalLit (.set [.record [("a\"b", .decimal (-15000)), ("k", .set [])], .ip ⟨true, 1, 64⟩, .long (-5)])) =
+      "[{\"a\\\"b\":decimal(\"-1.5\"), \"k\":[]}, ip(\"::1/64\"), -5]" := by
+  decide +kernel
+
+/-- policies with such values anywhere in their conditions -/
+example : policyOKGoV { effect := .permit, conditions := [(true, .binop .contains (.lit (.set [.ip ⟨false, 167772161, 32⟩, .long 1]))
+      (.access (.lit (.record [("a", .decimal 15000)])) "a")), (false, .like (.var .context) [⟨true, [97]⟩])] } = true := by
+  decide +kernel
+
+/-- **idempotence fails with value-only NodeValues** (known finding `extension-value-in-set-or-record-rerendered-with-parens`):
+    a set VALUE holding an ip is written `[ip("10.0.0.1")]`; what is read back is a set NODE whose element is a call
+    node, which the set printer parenthesises — the second rendering is `[(ip("10.0.0.1"))]` (same meaning, and stable
+    from then on) -/
+theorem C08_marshal_idempotent_values_counterexample :
+    ∃ p : Policy, policyOKGoV p = true ∧
+      pieceText (marshalPolicy (desugarPolicy p)) ≠ pieceText (marshalPolicy p) ∧
+      pieceText (marshalPolicy p) = "permit ( principal, action, resource )\nwhen { [ip(\"10.0.0.1\")] };" ∧
+      pieceText (marshalPolicy (desugarPolicy p)) = "permit ( principal, action, resource )\nwhen { [(ip(\"10.0.0.1\"))] };" :=
+  ⟨{ effect := .permit, conditions := [(true, .lit (.set [.ip ⟨false, 167772161, 32⟩]))] }, by decide +kernel, by decide +kernel,
+    by decide +kernel, by decide +kernel⟩
 
 example : policyOKGo { effect := .forbid, annotations := [("id", "x")], principal := .is "User", action := .eq ("Action", "a"), resource := .in_ ("NS::Folder", "f"), conditions := [(true, .binop .and (.binop .lt (.binop .sub (.lit (.long 1)) (.lit (.long (-2)))) (.binop .mul (.var .context) (.unop .neg (.var .context))))
       (.binop .contains (.set [.lit (.long (-1)), .call "ip" [.lit (.str "::1")]]) (.access (.var .principal) "a b"))),
@@ -78,7 +173,7 @@ theorem C08_negate_literal_same_meaning (n : Int) (h0 : 0 ≤ n) (h1 : n ≤ 922
     · have h1' : ¬ n < 0 := by omega
       have h2' : -n < 0 := by omega
       have h3 : (-n).natAbs = n.toNat := by omega
-      simp [marshalExpr, marshalLit, goWrap, goPrec, h1', h3, hpos]
+      simp [marshalExpr, marshalLit, marshalValW, goWrap, goPrec, h1', h3, hpos]
 
 /-- regression (repaired defect `negative-literal-receiver`): a negative literal receiver is written in
     parentheses, and the text is read back to the same tree -/
